@@ -15,7 +15,7 @@ class H2Run(AsyncRun):
     def __init__(self, calls, pool_kwargs=None, srv=None, body_frames=(6, 6), uploads=None):
         kw = dict(max_connections=2, http1=False, http2=True)
         kw.update(pool_kwargs or {})
-        self.srv = dict(settings=[], goaway=None, rst=[], window=None, init_settings=None, wu_unit=None)
+        self.srv = dict(settings=[], goaway=None, rst=[], window=None, init_settings=None, wu_unit=None, early_head=False)
         self.srv.update(srv or {})
         self.body_frames = body_frames
         self.peers = []
@@ -123,9 +123,11 @@ class H2Run(AsyncRun):
                 en.append(("srv", ci, "close"))  # the client has said GOAWAY: the server hangs up
                 continue
             for sid, req in sorted(peer.by_stream.items()):
-                if not req.complete:
-                    continue
                 pr = self.progress.setdefault((ci, sid), {"head": False, "frames": 0, "done": False})
+                # early_head: a streaming / echo-style server sends its response HEADERS as soon as it
+                # has the request head, while the upload is still going on (and blocked on its window)
+                if not req.complete and not (self.srv.get("early_head") and not pr["head"]):
+                    continue
                 if pr["done"] or (ci, sid) in self.rst_done:
                     continue
                 if ci == 0 and self.goaway_sent and sid > self.srv["goaway"]:
